@@ -170,3 +170,16 @@ func SplitICC(profile []byte, n int) [][]byte {
 }
 
 const MaxICCChunk = 65533 - 14 // 65519 bytes of payload per APP2 segment
+
+// ExifThumb is an Exif block (TIFF header, a few filler bytes) carrying a complete baseline JPEG
+// thumbnail of 16x12 pixels: metadata of this kind is what real APP1 / EXIF / eXIf payloads hold, and
+// a container parser must not mistake the thumbnail's markers for the container's own.
+func ExifThumb(withPrefix bool) []byte {
+	thumb, _ := BuildJPEG([]JSeg{SOI(), JFIF(), DQT(0), SOF(0xC0, 8, 12, 16, StdComps(3, 0x22)), DHT(0, 0), SOS(3, EntropyBytes(40, 8)), EOI()})
+	var b []byte
+	if withPrefix {
+		b = append(b, 'E', 'x', 'i', 'f', 0, 0)
+	}
+	b = append(b, 'M', 'M', 0, 42, 0, 0, 0, 8, 0, 0, 0, 0, 0, 0)
+	return append(b, thumb...)
+}
